@@ -11,7 +11,7 @@ boundaries in text (`interpolate`).
 Correspondence: the Lean `xform` (Genshi.Py.xform) against the real transformers on the same
 trees (wire form of the resulting `ast`), and the Lean model of `interpolation.lex` against the real one."""
 import ast, builtins, copy, json, operator, re, warnings
-from harness import proto, gen_pyexpr as G
+from harness import proto, gen_pyexpr as G, gen_pyeval as CG
 from harness.framework import Result, pmap
 from harness.proto import Atom
 
@@ -21,8 +21,11 @@ TRUSTED = [
     'modelled, not verified: genshi/template/eval.py TemplateASTTransformer / ExpressionASTTransformer (Lean Genshi.Py.xform, tied by tree correspondence), LookupBase rules (Lean lookup functions), interpolation.lex (Lean model, tied by correspondence)',
     'CPython is the definition of Python semantics: the theorem is relative to an uninterpreted operator semantics; the reference interpreter of the oracle is cross-checked against eval() on every case that uses no documented extension',
     'compile() of the regenerated source and the byte-code interpreter are exercised, not modelled',
+    'modelled, not verified: the concrete value semantics C.sem / C.bindArgs of Model/PyEvalC.lean (operators, containers, call machinery on None/bool/int/str/tuple/list/dict/object/range/generator/closure values), tied to CPython and to genshi on every generated case by the streams ceval-*; outside its domain the model answers unmodelled (counted)',
 ]
 ASSUMPTIONS = [
+    'the Lean evaluators capture variables by value: a closure / generator expression created in a comprehension and used after its loop variable was rebound (Python closes over the variable) is not generated for the ceval streams',
+    'ceval streams: a case on which CPython gives different outcomes for a list comprehension and for list(<the same generator expression>) is not judged (counted ceval:cpython-inlining-uncertain; CPython 3.12.1 comprehension inlining)',
     'context data keys are ordinary identifiers that do not shadow NotImplemented / Ellipsis (those two names always mean the builtins)',
     'values are compared up to a canonical form: scalars by repr, containers recursively, generators by their items, functions and other objects by type',
     'a case on which the reference (CPython compiling its own tree with the lookups plugged in) and plain eval() disagree although no extension was used is not judged (counted as oracle-uncertain): CPython 3.12.1 raises a spurious UnboundLocalError for a free name that is also the loop variable of a comprehension nested in the iterable of another comprehension inside a lambda',
@@ -433,6 +436,8 @@ def oracle_case(case):
         return oracle_lex(case)
     if kind == 'scope':
         return oracle_scope(case)
+    if kind == 'tmpl':
+        return oracle_tmpl(case)
     from genshi.template.eval import Expression
     src, lookup = case['src'], case['lookup']
     try:
@@ -623,6 +628,112 @@ def priority_cases(rng, n):
     return cases
 
 
+# -- lambdas with every parameter kind, CALLED (positional, keyword, star arguments): which parameter receives which
+#    argument / default is decided by the regenerated `arguments` node (seeded change C03-4, missed before: the
+#    generators never called a lambda that has more than one keyword-only parameter)
+
+def lambda_call_cases(rng, n):
+    """`(lambda p, q=D, /, r=D, *rest, lo=D, hi, **kw: BODY)(ARGS)`: positional-only, ordinary, keyword-only parameters
+    with defaults in every admissible pattern (kw_defaults with holes: a keyword-only parameter WITH a default before one
+    WITHOUT), *args / **kw, called with positional, keyword, * and ** arguments (mostly admissible; some calls are
+    wrong on purpose: the TypeError must be the same); the body shows which parameter got which value"""
+    cases = []
+    for _ in range(n):
+        pool = ['p', 'q', 'r', 'u', 'v', 'w', 'lo', 'hi', 'sep']
+        rng.shuffle(pool)
+        npo, nar, nko = rng.choice([0, 0, 1, 2]), rng.choice([0, 1, 1, 2]), rng.choice([0, 1, 2, 2, 3, 3])
+        po = [pool.pop() for _ in range(npo)]
+        ar = [pool.pop() for _ in range(nar)]
+        ko = [pool.pop() for _ in range(nko)]
+        va = 'rest' if rng.random() < 0.3 else None
+        ka = 'kw' if rng.random() < 0.3 else None
+        dexpr = lambda: rng.choice(['a', 'b', 'x', '10', '20', 'n + 1', 'y * 2', "'d'", 'a + b', 'None', '-1', 'nope', 'items'])
+        ndef = rng.randrange(0, npo + nar + 1) if rng.random() < 0.7 else 0
+        pdef = dict((nm, dexpr()) for nm in (po + ar)[npo + nar - ndef:])
+        kdef = dict((nm, dexpr()) for nm in ko if rng.random() < 0.5)
+        ps = []
+        for i, nm in enumerate(po):
+            ps.append(nm + ('=' + pdef[nm] if nm in pdef else ''))
+        if po:
+            ps.append('/')
+        for nm in ar:
+            ps.append(nm + ('=' + pdef[nm] if nm in pdef else ''))
+        if va:
+            ps.append('*' + va)
+        elif ko:
+            ps.append('*')
+        for nm in ko:
+            ps.append(nm + ('=' + kdef[nm] if nm in kdef else ''))
+        if ka:
+            ps.append('**' + ka)
+        names = po + ar + ko
+        r = rng.random()
+        if r < 0.6 or not names:
+            body = '(' + ''.join(nm + ', ' for nm in names) + (va + ', ' if va else '') + ('sorted(%s.items()), ' % ka if ka else '') + ')'
+        elif r < 0.8:
+            body = ' + '.join('%s * %d' % (nm, 10 ** i) for i, nm in enumerate(names))
+        else:
+            body = '[%s for i in range(2)]' % rng.choice(names)
+        aexpr = lambda: rng.choice(['1', '2', '3', 'a', 'b', 'c', 'x', 'a + 1', 'n', "'s'", 'items', 'None', 'zz'])
+        # an admissible call
+        pos_params = po + ar
+        need = npo + nar - ndef
+        npos_given = rng.randrange(min(need, len(pos_params)), len(pos_params) + 1) if rng.random() < 0.7 else max(npo, min(need, len(pos_params)))
+        npos_given = max(npos_given, min(npo - sum(1 for nm in po if nm in pdef), npo))
+        args = [aexpr() for _ in range(npos_given)]
+        if va and rng.random() < 0.6:
+            args += [aexpr() for _ in range(rng.randrange(1, 3))] if npos_given == len(pos_params) else []
+        kws = []
+        for nm in pos_params[npos_given:]:
+            if nm in ar and (nm not in pdef or rng.random() < 0.5):
+                kws.append('%s=%s' % (nm, aexpr()))
+        for nm in ko:
+            if nm not in kdef or rng.random() < 0.5:
+                kws.append('%s=%s' % (nm, aexpr()))
+        rng.shuffle(kws)
+        if ka and rng.random() < 0.6:
+            kws.append('%s=%s' % (rng.choice(['z1', 'z2', 'extra']), aexpr()))
+        star = False
+        if args and rng.random() < 0.15:
+            k = rng.randrange(0, len(args))
+            args = args[:k] + ['*[%s]' % ', '.join(args[k:])]
+            star = True
+        if kws and rng.random() < 0.12:
+            kws = ['**{%s}' % ', '.join('%r: %s' % tuple(kw.split('=', 1)) for kw in kws)]
+            star = True
+        wrong = None
+        if rng.random() < 0.12:
+            wrong = rng.choice(['drop', 'unknown', 'extra-pos', 'dup'])
+            if wrong == 'drop' and (args or kws):
+                (args if args and (not kws or rng.random() < 0.5) else kws).pop()
+            elif wrong == 'unknown':
+                kws.append('nokw=1')
+            elif wrong == 'extra-pos':
+                args = args + ['7'] * 3
+            elif wrong == 'dup' and ar and npos_given >= len(pos_params) and not star:
+                kws.append('%s=0' % ar[-1])
+        lam = '(lambda %s: %s)' % (', '.join(ps), body)
+        call = '%s(%s)' % (lam, ', '.join(args + kws))
+        w = rng.choice(['%s', '%s', '%s', '[%s for j in items]', '(lambda g: %s)(1)', '(%s, a)', 'len([%s])', '%s if a else 0',
+                        '(lambda fn: fn)(%s)'])
+        if w == '(lambda fn: fn)(%s)':
+            # the function passed around first, called afterwards
+            src = '(lambda fn: fn(%s))(%s)' % (', '.join(args + kws), lam)
+        else:
+            src = w % call
+        data = rand_data(rng)
+        for nm in ['a', 'b', 'c', 'x', 'y', 'n']:
+            if rng.random() < 0.9 and (not isinstance(data.get(nm), int) or isinstance(data.get(nm), bool)):
+                data[nm] = rng.choice([0, 1, 2, 3, 5, -2])
+        data.setdefault('items', [1, 2])
+        holes = [nm in kdef for nm in ko]
+        shape = 'lamcall:' + ('kwhole' if any(holes[i] and not all(holes[i:]) for i in range(len(holes))) else
+                              'kwonly' if ko else 'plain') + ('+po' if po else '') + ('+va' if va else '') + ('+ka' if ka else '') + \
+                ('+star' if star else '') + ('+wrong' if wrong else '')
+        cases.append({'kind': 'eval', 'src': src, 'lookup': rng.choice(['strict', 'lenient']), 'data': data, 'shape': shape})
+    return cases
+
+
 LOOKUP_POOL = ['x', 'k', 'a', 'keys', 'items', 'get', 'values', 'p', 'missing']
 
 
@@ -778,6 +889,10 @@ def gen_lex(rng, n):
 
 
 HAND = [
+    ('(lambda *, lo=0, hi=10, x: (lo, hi, x))(lo=1, x=5)', {}), ('(lambda *, lo=a, hi=b, x: (lo, hi, x))(x=5)', {'a': 0, 'b': 10}),
+    ('(lambda first, *rest, pad="-", width: (first, rest, pad, width))(1, 2, width=n)', {'n': 7}),
+    ('(lambda p, q=1, /, r=2, *rest, lo=3, hi, **kw: (p, q, r, rest, lo, hi, sorted(kw.items())))(0, hi=a, z=1)', {'a': 4}),
+    ('(lambda a, b=2, *, c=3: (a, b, c))(1)', {}), ('(lambda *, x, lo=0: (lo, x))(x=5)', {}),
     ('(-2) ** 2', {}), ('(-a) ** 2', {'a': 3}), ('(not a) == b', {'a': 0, 'b': 1}), ('(not a) + 1', {'a': 0}),
     ('(-items)[0]', {'items': [1]}), ('x >= (not y)', {'x': 1, 'y': 0}), ('1e999', {}), ('(lambda a=a: a)()', {'a': 5}),
     ('(lambda a, /: a)(1)', {}), ('(lambda *, k=a: k)()', {'a': 2}), ('[x for x in x]', {'x': [1, 2]}),
@@ -902,6 +1017,208 @@ def compare_model(cases, res):
             res.disagreements.append({'stream': what, 'case': c, 'model': repr(model)[:700], 'real': repr(want)[:700]})
 
 
+# --------------------------------------------------------------------------
+# the concrete Lean evaluator (Model/PyEvalC.lean) against genshi and against CPython
+
+class _Uninline(ast.NodeTransformer):
+    def visit_ListComp(self, node):
+        self.generic_visit(node)
+        return ast.Call(ast.Name('__ref_list', ast.Load()), [ast.GeneratorExp(node.elt, node.generators)], [])
+
+
+def _run_uninlined(ref, tree):
+    new = RefTransformer().visit(copy.deepcopy(tree))
+    new = _Uninline().visit(new)
+    ast.fix_missing_locations(new)
+    code = compile(new, '<reference-uninlined>', 'eval')
+    return eval(code, {'__ref_name': ref.name, '__ref_attr': ref.attr, '__ref_item': ref.item, '__ref_bin': ref.bin,
+                       '__ref_list': list, '__builtins__': {}})
+
+
+def ceval_real(case):
+    """what genshi computes, what the reference (CPython on its own tree + documented lookups) computes, what plain
+    eval computes when no extension was used; each as a canonical outcome (None: not available)"""
+    from genshi.template.eval import Expression
+    src, lookup = case['src'], case['lookup']
+    tree = ast.parse(src.strip(), mode='eval')
+    try:
+        expr = Expression(src, lookup=lookup)
+    except Exception:  # noqa
+        return None
+    ref = Ref(build_data(case['data']), lookup == 'strict')
+    try:
+        want = outcome(lambda: ref.run(tree))
+    except (Unsupported, TooBig):
+        return None
+    # CPython 3.12 inlines list comprehensions; 3.12.1 then resolves some names wrongly (see ASSUMPTIONS).  The same
+    # tree with every list comprehension written as list(<generator expression>) (never inlined, same meaning) must
+    # give the same outcome, else CPython is no reference for this case.
+    ref2 = Ref(build_data(case['data']), lookup == 'strict')
+    try:
+        want2 = outcome(lambda: _run_uninlined(ref2, tree))
+    except (Unsupported, TooBig):
+        return None
+    if CG.norm_outcome(want2) != CG.norm_outcome(want):
+        return 'cpython-inlining-uncertain'
+    got = outcome(lambda: expr.evaluate(build_data(case['data'])))
+    py = None
+    if ref.ext == 0:
+        g = dict(builtins.__dict__)
+        g.update(build_data(case['data']))
+        py = outcome(lambda: eval(compile(tree, '<ref>', 'eval'), g))
+    return {'genshi': CG.norm_outcome(got), 'ref': CG.norm_outcome(want), 'eval': py and CG.norm_outcome(py), 'ext': ref.ext}
+
+
+def compare_ceval(cases, res):
+    """stream `ceval`: the Lean evaluator run (a) with the documented lookup rules on the parsed tree and (b) Python-style
+    on the rewritten tree (globals __data__ / _lookup_*), against Expression.evaluate of the real genshi, against CPython
+    evaluating its own tree with the documented lookups plugged in, and (no extension used) against plain eval()"""
+    lines, meta = [], []
+    for c in cases:
+        try:
+            real = ceval_real(c)
+            tree = ast.parse(c['src'].strip(), mode='eval')
+            wire = G.to_wire(tree.body)
+        except RecursionError:
+            res.count('ceval:recursion-limit')
+            continue
+        if real is None or isinstance(real, str):
+            res.count('ceval:' + (real or 'rejected-or-skipped'))
+            continue
+        dw = CG.data_wire(c['data'])
+        st = c['lookup'] == 'strict'
+        lines.append(proto.line(Atom('C03'), Atom('ceval'), False, st, dw, wire))
+        lines.append(proto.line(Atom('C03'), Atom('ceval'), True, st, dw, wire))
+        meta.append((c, real))
+    answers = proto.run_lines(lines)
+    for k, (c, real) in enumerate(meta):
+        outs = []
+        for ans in answers[2 * k:2 * k + 2]:
+            if ans.startswith('unmodelled'):
+                outs.append(None)
+                continue
+            outs.append(CG.model_outcome(proto.dec(ans)))
+        gs, py = outs
+        res.evaluations += 1
+        if gs is None or py is None:
+            res.count('ceval:unmodelled' + ('-fuel' if 'unmodelled-fuel' in answers[2 * k:2 * k + 2] else ''))
+            if (gs is None) != (py is None):
+                res.count('ceval:unmodelled-one-side')
+            continue
+        res.streams['ceval'] = res.streams.get('ceval', 0) + 1
+        cls = ('value' if gs[0] == 'ok' else 'raises:' + gs[1]) + (':ext' if real['ext'] else '')
+        res.count('ceval:' + cls)
+        for f in c.get('feat', []):
+            res.count('ceval-feat:' + f)
+        if c.get('feat'):
+            res.nontrivial.add('ceval|%s|%s|%s' % (c['lookup'], cls, ','.join(c['feat'])))
+        case = {'kind': 'eval', 'src': c['src'], 'lookup': c['lookup'], 'data': c['data']}
+        if gs != py:
+            res.disagreements.append({'stream': 'ceval-xform', 'case': case, 'model': repr(py)[:500], 'real': 'documented semantics in the model: ' + repr(gs)[:500]})
+        if gs != real['genshi']:
+            res.disagreements.append({'stream': 'ceval-genshi', 'case': case, 'model': repr(gs)[:500], 'real': repr(real['genshi'])[:500]})
+        if gs != real['ref']:
+            res.disagreements.append({'stream': 'ceval-cpython-ref', 'case': case, 'model': repr(gs)[:500], 'real': repr(real['ref'])[:500]})
+        if real['eval'] is not None and real['eval'] == real['ref'] and gs != real['eval']:
+            res.disagreements.append({'stream': 'ceval-cpython-eval', 'case': case, 'model': repr(gs)[:500], 'real': repr(real['eval'])[:500]})
+        if real['eval'] is not None:
+            res.count('ceval:plain-eval-compared')
+
+
+# --------------------------------------------------------------------------
+# expressions observed through templates: ${...}, py:with, py:for targets
+
+class _Rec(object):
+    def __init__(self):
+        self.vals = []
+
+    def __call__(self, v):
+        # canonical form at once: a generator object is consumed while the names bound by py:with / py:for still are
+        # in the context (afterwards its free names would resolve in the outer frames)
+        self.vals.append(canon(v))
+        return ''
+
+
+def tmpl_observe(case):
+    """the value(s) the template hands to `rec`, as a canonical outcome (None: template rejected at construction)"""
+    from genshi.template import MarkupTemplate
+    data = build_data(case['data'])
+    rec = _Rec()
+    data['rec'] = rec
+    try:
+        t = MarkupTemplate(case['src'], lookup=case['lookup'])
+    except Exception:  # noqa
+        return None
+
+    try:
+        t.generate(**data).render('xml')
+    except (RecursionError, Unsupported, TooBig):
+        raise
+    except Exception as e:  # noqa
+        return CG.norm_outcome(['err', type(e).__name__])
+    if case['form'] == 'D':
+        return CG.norm_outcome(['ok', ['list', list(rec.vals)]])
+    if len(rec.vals) != 1:
+        return ['err', 'recorded %d values' % len(rec.vals)]
+    return CG.norm_outcome(['ok', rec.vals[0]])
+
+
+def tmpl_expr_case(case):
+    data = dict(case['data'])
+    data.update(case.get('bind') or {})
+    return {'kind': 'eval', 'src': case['expr'], 'lookup': case['lookup'], 'data': data}
+
+
+def oracle_tmpl(case):
+    """the expression inside a template evaluates to what Python gives for it (names bound by py:with / py:for are
+    context names)"""
+    got = tmpl_observe(case)
+    if got is None:
+        return None
+    real = ceval_real(tmpl_expr_case(case))
+    if real is None or isinstance(real, str):
+        return None
+    if real['eval'] is not None and real['eval'] != real['ref']:
+        return None
+    if got != real['ref']:
+        return {'case': case, 'what': 'the expression %r evaluated inside the template %r (lookup=%s) gives what Python gives for it' % (case['expr'], case['src'], case['lookup']),
+                'expected': real['ref'], 'observed': got, 'extensions_used': real['ext']}
+    return None
+
+
+def compare_templates(cases, res):
+    """stream `ceval-template`: the Lean evaluator on the equivalent plain expression vs what the template computed"""
+    lines, meta = [], []
+    for c in cases:
+        res.evaluations += 1
+        try:
+            f = oracle_tmpl(c)
+            got = tmpl_observe(c)
+            ec = tmpl_expr_case(c)
+            wire = G.to_wire(ast.parse(ec['src'].strip(), mode='eval').body)
+        except RecursionError:
+            res.count('tmpl:recursion-limit')
+            continue
+        if f:
+            res.failures.append(f)
+        if got is None:
+            res.count('tmpl:rejected')
+            continue
+        res.count('tmpl:form-%s:%s' % (c['form'], 'value' if got[0] == 'ok' else 'raises:' + got[1]))
+        lines.append(proto.line(Atom('C03'), Atom('ceval'), False, c['lookup'] == 'strict', CG.data_wire(ec['data']), wire))
+        meta.append((c, got))
+    answers = proto.run_lines(lines)
+    for (c, got), ans in zip(meta, answers):
+        if ans.startswith('unmodelled'):
+            res.count('tmpl:unmodelled')
+            continue
+        gs = CG.model_outcome(proto.dec(ans))
+        res.streams['ceval-template'] = res.streams.get('ceval-template', 0) + 1
+        res.nontrivial.add('tmpl|%s|%s|%s|%s' % (c['form'], c['lookup'], gs[0] if gs[0] == 'ok' else gs[1], ','.join(c.get('feat', []))))
+        if gs != got:
+            res.disagreements.append({'stream': 'ceval-template', 'case': c, 'model': repr(gs)[:500], 'real': repr(got)[:500]})
+
+
 def shard(arg):
     import random, sys, resource
     sys.setrecursionlimit(3000)
@@ -916,6 +1233,7 @@ def shard(arg):
     if idx == 0:
         cases = [{'kind': 'eval', 'src': s, 'lookup': lk, 'data': d} for s, d in HAND for lk in ('strict', 'lenient')] + cases
     cases += priority_cases(rng, max(20, n // 8))
+    cases += lambda_call_cases(rng, max(30, n // 6))
     cases += gen_lex(rng, nlex)
     cases += gen_lex_raw(rng, nlex * 4)
     for c in cases:
@@ -952,6 +1270,21 @@ def shard(arg):
             res.failures.append(oracle_scope({'kind': 'scope', 'src': c['src']}))
     compare_model(cases, res)
     compare_lookup(gen_lookup_objects(rng, max(100, n // 2)), res)
+    ccases = CG.gen_ceval_cases(rng, max(150, min(n // 2, 4000)))
+    if idx == 0:
+        ccases = [{'kind': 'ceval', 'src': s_, 'lookup': lk, 'data': d_, 'feat': ['hand']} for s_, d_ in CG.HAND_CEVAL for lk in ('strict', 'lenient')] + ccases
+    # the called-lambda shapes of the oracle also through the model (context names outside the model's domain dropped)
+    for c in lambda_call_cases(rng, max(40, min(n // 10, 1000))):
+        names = set(re.findall(r'[A-Za-z_][A-Za-z0-9_]*', c['src']))
+        data = dict((k, v) for k, v in c['data'].items() if k in names)
+        if all(CG.in_domain(v) for v in data.values()):
+            ccases.append({'kind': 'ceval', 'src': c['src'], 'lookup': c['lookup'], 'data': data, 'feat': [c['shape']]})
+    compare_ceval(ccases, res)
+    tcases = CG.gen_template_cases(rng, max(60, min(n // 6, 1500)))
+    if idx == 0:
+        tcases = [{'kind': 'tmpl', 'form': f_, 'src': s_, 'expr': e_, 'bind': b_, 'lookup': lk, 'data': d_, 'feat': ['hand']}
+                  for f_, s_, e_, b_, d_ in CG.HAND_TMPL for lk in ('strict', 'lenient')] + tcases
+    compare_templates(tcases, res)
     res.samples = [c for c in cases[:3]]
     return res
 
